@@ -11,6 +11,7 @@ C16 — Measurement resampling and source-size filtering conserve what they prom
 import AbtemVerif.Model.Resample
 import AbtemVerif.Props.C14
 import AbtemVerif.Lib.DFT
+import AbtemVerif.Lib.DFT2
 import Mathlib.Tactic.Ring
 import Mathlib.Tactic.Linarith
 import Mathlib.Tactic.FieldSimp
@@ -121,6 +122,17 @@ theorem filter_commutes_with_integration {S K R : Type*} [Fintype S] [Fintype K]
   apply Finset.sum_congr rfl; intro k _
   ring
 
+/-- Both call sites convert the source size to pixels the same way (generated `sigma[i] / scan_sampling` of
+`_gaussian_source_size` and `s / d` of `gaussian_filter`): with the image sampling equal to the scan sampling the two
+Gaussian kernels of "filter then integrate" and "integrate then filter" have the same width. (That both calls use
+`mode="wrap"` and that scipy builds the same kernel from the same sigma is observed by the oracle, not proved.) -/
+theorem source_size_sigma_eq_filter_sigma (σ d : Rat) : sourceSigmaPixels σ d = filterSigmaPixels σ d := by
+  unfold sourceSigmaPixels filterSigmaPixels; rfl
+
+/-- `interpolate(gpts=…)`: the new sampling keeps the reciprocal-space extent `sampling × gpts` of each axis. -/
+theorem gpts_route_keeps_extent (d oldN newN : Rat) (h : newN ≠ 0) : gptsRouteSampling d oldN newN * newN = d * oldN := by
+  unfold gptsRouteSampling; field_simp
+
 /-! ### Images.interpolate (Fourier method) -/
 
 lemma bigPos_same (n p : Nat) (hp : p < n) : AbtemVerif.Props.C14.bigPos n n p = p := by
@@ -169,6 +181,26 @@ theorem fourier_interpolate_preserves_mean {ι κ : Type*} [Fintype ι] [Fintype
     exact_mod_cast (ne_of_gt this)
   rw [← Finset.mul_sum, hsum, hcrop, hdc]
   field_simp
+
+/-- The same statement with the DFT's zero-frequency properties packaged as `HasDC` (proved for the 1-D and 2-D DFT in
+`Lib/DFT.lean`, `Lib/DFT2.lean`) instead of two bare hypotheses. -/
+theorem fourier_interpolate_preserves_mean_hasDC {ι κ : Type*} [Fintype ι] [Fintype κ] [Nonempty ι] [Nonempty κ]
+    (P : FourierPair ι) (Q : FourierPair κ) (i0 : ι) (k0 : κ) (hP : P.HasDC i0) (hQ : Q.HasDC k0)
+    (crop : (ι → ℂ) → (κ → ℂ)) (hcrop : ∀ y, crop y k0 = y i0) (x : ι → ℂ) :
+    (∑ j, ((Fintype.card κ : ℂ) / (Fintype.card ι : ℂ)) * Q.Finv (crop (P.F x)) j) / (Fintype.card κ : ℂ)
+      = (∑ j, x j) / (Fintype.card ι : ℂ) := by
+  apply fourier_interpolate_preserves_mean P Q i0 k0 hP.dc _ crop hcrop x
+  intro y
+  rw [← hQ.dc (Q.Finv y), Q.inv_right]
+
+/-- instance: resampling an `n × m` image to `n' × m'` with the 2-D DFT and any crop / pad that keeps the `(0,0)` coefficient -/
+example (n m n' m' : ℕ) [NeZero n] [NeZero m] [NeZero n'] [NeZero m']
+    (crop : (ZMod n × ZMod m → ℂ) → (ZMod n' × ZMod m' → ℂ)) (hcrop : ∀ y, crop y (0, 0) = y (0, 0)) (x : ZMod n × ZMod m → ℂ) :
+    (∑ j, ((Fintype.card (ZMod n' × ZMod m') : ℂ) / (Fintype.card (ZMod n × ZMod m) : ℂ))
+        * (zmodPair2 n' m').Finv (crop ((zmodPair2 n m).F x)) j) / (Fintype.card (ZMod n' × ZMod m') : ℂ)
+      = (∑ j, x j) / (Fintype.card (ZMod n × ZMod m) : ℂ) :=
+  fourier_interpolate_preserves_mean_hasDC (zmodPair2 n m) (zmodPair2 n' m') (0, 0) (0, 0) (zmodPair2_hasDC n m) (zmodPair2_hasDC n' m')
+    crop hcrop x
 
 /-! ### non-vacuity -/
 example : rescale [1, 1, 2] 3 = [3/4, 3/4, 3/2] := by decide +kernel
